@@ -141,7 +141,9 @@ package quickfix
 //@   ensures @precision err == nil ==> f.Precision == (len(bytes) == 17 ? Seconds : (len(bytes) == 21 ? Millis : (len(bytes) == 24 ? Micros : Nanos)))
 //@   ensures @length len(bytes) != 17 && len(bytes) != 21 && len(bytes) != 24 && len(bytes) != 27 ==> err != nil
 
+// the text is that of the instant in UTC (the zone of the value plays no part)
 //@ func (f FIXUTCTimestamp) Write [C14]
+//@   atcall Format @utc zoff(locof(arg0)) == 0 && unix(arg0) == unix(f.Time)
 //@   ensures @length len(result) == (f.Precision == Seconds ? 17 : (f.Precision == Micros ? 24 : (f.Precision == Nanos ? 27 : 21)))
 
 // ---- message.go: field extraction --------------------------------------------------------
